@@ -257,6 +257,11 @@ func (s *Syncer[H]) findTailHeight(ctx context.Context, oldTail, head H) (uint64
 	)
 
 	newTailHeight := estimatedTailHeight
+	if storeHeight := s.store.Height(); newTailHeight > storeHeight+1 {
+		// only what is stored can be examined and pruned: when the store lags behind the chain,
+		// start right above its head and let the walk below find the tail among its headers
+		newTailHeight = storeHeight + 1
+	}
 	for newTailHeight > oldTail.Height() && newTailHeight-1 <= s.store.Height() {
 		// the estimate counts one header per blockTime, which is the upper bound of the block time:
 		// with faster blocks it lies above the first header of the window, so walk down to it
